@@ -42,6 +42,8 @@ impl<'de, T: Deserialize<'de>> Deserialize<'de> for MapVals<T> {
 pub fn dec<X: DeserializeOwned>(f: Fmt, b: &[u8]) -> Result<X, String> {
     match f {
         Fmt::Json => serde_json::from_slice::<X>(b).map_err(|e| e.to_string()),
+        Fmt::JsonReader => serde_json::from_reader::<_, X>(b).map_err(|e| e.to_string()),
+        Fmt::JsonValue => serde_json::from_slice::<serde_json::Value>(b).and_then(serde_json::from_value::<X>).map_err(|e| e.to_string()),
         Fmt::Ron => ron::de::from_bytes::<X>(b).map_err(|e| e.to_string()),
         Fmt::MsgPack => rmp_serde::from_slice::<X>(b).map_err(|e| e.to_string()),
     }
@@ -49,7 +51,7 @@ pub fn dec<X: DeserializeOwned>(f: Fmt, b: &[u8]) -> Result<X, String> {
 
 pub fn enc<X: Serialize>(f: Fmt, v: &X) -> Result<Vec<u8>, String> {
     match f {
-        Fmt::Json => serde_json::to_vec(v).map_err(|e| e.to_string()),
+        Fmt::Json | Fmt::JsonReader | Fmt::JsonValue => serde_json::to_vec(v).map_err(|e| e.to_string()),
         Fmt::Ron => ron::ser::to_string(v).map(|s| s.into_bytes()).map_err(|e| e.to_string()),
         Fmt::MsgPack => rmp_serde::to_vec(v).map_err(|e| e.to_string()),
     }
@@ -94,6 +96,14 @@ pub fn de_in_place<'a, T: Deserialize<'a>>(f: Fmt, b: &'a [u8], place: &mut T) -
             let mut d = serde_json::Deserializer::from_slice(b);
             T::deserialize_in_place(&mut d, place).is_ok() && d.end().is_ok()
         }
+        Fmt::JsonReader => {
+            let mut d = serde_json::Deserializer::from_reader(b);
+            T::deserialize_in_place(&mut d, place).is_ok() && d.end().is_ok()
+        }
+        Fmt::JsonValue => match serde_json::from_slice::<serde_json::Value>(b) {
+            Ok(v) => T::deserialize_in_place(v, place).is_ok(),
+            Err(_) => false,
+        },
         Fmt::Ron => match ron::de::Deserializer::from_bytes(b) {
             Ok(mut d) => T::deserialize_in_place(&mut d, place).is_ok() && d.end().is_ok(),
             Err(_) => false,
@@ -105,11 +115,39 @@ pub fn de_in_place<'a, T: Deserialize<'a>>(f: Fmt, b: &'a [u8], place: &mut T) -
     }
 }
 
+/// Deserialize through serde's in-memory value deserializers (`serde::de::value`), which forward every
+/// `deserialize_*` hint - `deserialize_newtype_struct` included - to `deserialize_any`:
+/// kind 0 = the primitive's own deserializer, 1 = a one-element sequence, 2 = a one-entry map,
+/// 3 = a two-element sequence. `None` = no such kind.
+pub fn de_value<'de, T, I>(raw: I, kind: u8) -> Option<Result<T, String>>
+where
+    T: Deserialize<'de>,
+    I: serde::de::IntoDeserializer<'de, serde::de::value::Error> + Clone,
+{
+    use serde::de::value::{MapDeserializer, SeqDeserializer};
+    use serde::de::IntoDeserializer;
+    let r = match kind {
+        0 => T::deserialize(raw.into_deserializer()),
+        1 => T::deserialize(SeqDeserializer::new(std::iter::once(raw))),
+        2 => T::deserialize(MapDeserializer::new(std::iter::once(("0", raw)))),
+        3 => T::deserialize(SeqDeserializer::new([raw.clone(), raw].into_iter())),
+        _ => return None,
+    };
+    Some(r.map_err(|e| e.to_string()))
+}
+pub const DE_VALUE_KINDS: u8 = 4;
+
 pub fn run_arbitrary<'a, T: arbitrary::Arbitrary<'a>, I>(b: &'a [u8], into: fn(T) -> I) -> Result<I, String> {
     let mut u = arbitrary::Unstructured::new(b);
     T::arbitrary(&mut u).map(into).map_err(|e| format!("{e:?}"))
 }
 
+#[macro_export]
+macro_rules! g_de_value {
+    () => {
+        Some(|raw: II, kind: u8| $crate::glue::de_value::<TT, II>(raw, kind).map(|r| r.map(|t| t.into_inner())))
+    };
+}
 #[macro_export]
 macro_rules! g_ctor_try {
     () => {
@@ -377,8 +415,11 @@ macro_rules! g_hashmap_borrow {
         Some(|raw: II| {
             let inner: II = mk(raw.clone())?.into_inner();
             let mut m = ::std::collections::HashMap::new();
-            m.insert(mk(raw)?, 1u8);
-            Some(m.get::<II>(&inner).is_some())
+            m.insert(mk(raw.clone())?, 1u8);
+            // and under a hasher that specialises the integer methods
+            let mut m2: ::std::collections::HashMap<TT, u8, ::std::hash::BuildHasherDefault<$crate::types::CallRecordingHasher>> = Default::default();
+            m2.insert(mk(raw)?, 1u8);
+            Some(m.get::<II>(&inner).is_some() && m2.get::<II>(&inner).is_some())
         })
     };
 }
@@ -388,8 +429,10 @@ macro_rules! g_hashmap_borrow_str {
         Some(|raw: II| {
             let inner: II = mk(raw.clone())?.into_inner();
             let mut m = ::std::collections::HashMap::new();
-            m.insert(mk(raw)?, 1u8);
-            Some(m.get::<str>(inner.as_str()).is_some() && m.get::<String>(&inner).is_some())
+            m.insert(mk(raw.clone())?, 1u8);
+            let mut m2: ::std::collections::HashMap<TT, u8, ::std::hash::BuildHasherDefault<$crate::types::CallRecordingHasher>> = Default::default();
+            m2.insert(mk(raw)?, 1u8);
+            Some(m.get::<str>(inner.as_str()).is_some() && m.get::<String>(&inner).is_some() && m2.get::<str>(inner.as_str()).is_some() && m2.get::<String>(&inner).is_some())
         })
     };
 }
